@@ -116,7 +116,8 @@ def stepC02 (s : Unit) (ws : List String) : Unit × Resp :=
     let r := parseReq mol k seed force isprot hx
     let its := modelItems r
     let tail := fun (e : Option String) => match e with | none => "ok" | some v => "err " ++ v
-    (s, { model := u64s (fedHashes its) ++ "|" ++ tail ((firstErr its).map errName),
+    (s, { model := if firstErr its == some .panic then "PANIC" else
+            u64s (fedHashes its) ++ "|" ++ tail ((firstErr its).map errName),
           spec := match specOf r with
             | some (_, hs, e) => u64s hs ++ "|" ++ tail e
             | none => "-" })
@@ -124,6 +125,7 @@ def stepC02 (s : Unit) (ws : List String) : Unit × Resp :=
     let r := parseReq mol k seed force isprot hx
     let its := modelItems r
     (s, { model := match firstErr its with
+            | some .panic => "PANIC"
             | some e => "err " ++ errName e
             | none => showNats (sortDedup (fedHashes its)),
           spec := match specOf r with
@@ -135,6 +137,7 @@ def stepC02 (s : Unit) (ws : List String) : Unit × Resp :=
     let its := modelItems r
     let raw := r.force && zeroes == "1"
     (s, { model := match firstErr its with
+            | some .panic => "PANIC"
             | some e => "err " ++ errCode e
             | none => if raw then u64s (its.filterMap (fun | .ok h => some h | _ => none))
                       else u64s (fedHashes its),
